@@ -132,6 +132,7 @@ def run_check(prop_id: str, tier: str, seed: int, cap_s: float = None) -> int:
     samples = []
     closed = []
     notes = []
+    slowest_case = [None]
     slowest = 0.0
     cap_hit = False
 
@@ -144,6 +145,8 @@ def run_check(prop_id: str, tier: str, seed: int, cap_s: float = None) -> int:
         clauses.update(r.get('clauses', {}))
         extra.update(r.get('extra', {}))
         digests.update(r.get('digests', []))
+        if r['_t'] > slowest:
+            slowest_case[0] = r['_case']
         slowest = max(slowest, r['_t'])
         if 'closed' in r:
             closed.append(bool(r['closed']))
@@ -244,6 +247,7 @@ def run_check(prop_id: str, tier: str, seed: int, cap_s: float = None) -> int:
         'tree_sha256': env.tree_sha256(),
         'cap_hit': cap_hit,
         'slowest_case_s': round(slowest, 2),
+        'slowest_case': slowest_case[0],
         'hook_guard': os.environ.get(env.GUARD),
         'known_findings_matched': sorted(seen_known),
         'violations_distinct_signatures': [list(map(str, s)) for s in by_sig],
